@@ -192,8 +192,8 @@ def run_case(case):
             ivb, _ = genlib.exact_interval(case["intervals"][b][b])
             ivo, _ = genlib.exact_interval(case["intervals"][b][opp])
             # bloc-first vs opposing-first ballots in the apportioned split
-            by = run["by_bloc"][b]
-            first_own = sum(bl.weight for bl in by.ballots if next(iter(bl.ranking[0])) in ivb)
+            by = (run.get("by_bloc") or {}).get(b)
+            first_own = sum(bl.weight for bl in by.ballots if next(iter(bl.ranking[0])) in ivb) if by is not None else n_bloc
             if n_bloc + n_cross and first_own != n_bloc and len(ivb) and len(ivo):
                 oracle.append(f"bloc {b}: {first_own} bloc-first ballots, apportioned {n_bloc}")
             for _ in range(n_bloc + n_cross):
@@ -216,7 +216,9 @@ def run_case(case):
             want = [int(x) for x in A.compute("huntington", props, case["N"])]
             for i, b in enumerate(case["blocs"]):
                 own = set(case["slates"][b])
-                by = run["by_bloc"][b]
+                by = (run.get("by_bloc") or {}).get(b)
+                if by is None:
+                    continue
                 first_own = sum(bl.weight for bl in by.ballots if bl.ranking and next(iter(bl.ranking[0])) in own)
                 total = by.total_ballot_wt
                 if total != want[2 * i] + want[2 * i + 1]:
